@@ -226,7 +226,39 @@ type outcome struct {
 
 var theWorker *worker
 
+// recent holds the sources most recently sent to the current worker process: if a failure
+// turns out to depend on what ran before it in the same process, the history is reported.
+var recent []string
+
+func history() string {
+	var b strings.Builder
+	for i, s := range recent {
+		tail := s
+		if strings.HasPrefix(s, wildPrelude) {
+			tail = "<prelude> " + s[len(wildPrelude):]
+		}
+		if len(tail) > 400 {
+			tail = tail[:400] + "…"
+		}
+		fmt.Fprintf(&b, "[-%d] %q\n", len(recent)-i, tail)
+	}
+	return b.String()
+}
+
 func execInWorker(src string) outcome {
+	o := execInWorker1(src)
+	if theWorker == nil {
+		recent = nil
+	} else {
+		recent = append(recent, src)
+		if len(recent) > 25 {
+			recent = recent[1:]
+		}
+	}
+	return o
+}
+
+func execInWorker1(src string) outcome {
 	if theWorker == nil {
 		w, err := startWorker()
 		if err != nil {
